@@ -674,11 +674,21 @@ class DelimitedRowWriter(AbstractRowWriter):
 
         super().__init__(target, data_format)
         keywords = _as_delimited_keywords(data_format)
-        self._delimited_writer = _compat.csv_writer(self._target_stream, **keywords)
+        # Build each row using CR LF as line delimiter so the CSV writer quotes items containing any of these
+        # characters (it only quotes characters that are part of the line delimiter). After that, replace it by the
+        # actual line delimiter.
+        self._line_delimiter = keywords.pop("lineterminator", "\r\n")
+        self._row_stream = io.StringIO(newline="")
+        self._delimited_writer = _compat.csv_writer(self._row_stream, lineterminator="\r\n", **keywords)
 
     def write_row(self, row_to_write):
+        self._row_stream.seek(0)
+        self._row_stream.truncate()
+        self._delimited_writer.writerow(row_to_write)
+        row_text = self._row_stream.getvalue()
+        assert row_text.endswith("\r\n")
         try:
-            self._delimited_writer.writerow(row_to_write)
+            self._target_stream.write(row_text[:-2] + self._line_delimiter)
         except UnicodeEncodeError as error:
             raise errors.DataFormatError("cannot write data row: %s; row=%s" % (error, row_to_write), self.location)
         self._location.advance_line()
